@@ -247,3 +247,4 @@ def run(ctx):
     # ---------------- R10: appended frames land where replay reads them (C03 T1/T2, shared) ----------------
     from props import c03
     c03.append_position(ctx, "R10.")
+    common.checkpoint_after_flush(ctx, "R11.CHECKPOINT-AFTER-FLUSH")
